@@ -66,6 +66,10 @@ def sh(cmd, cwd=None, inp=None, timeout=None, env=None):
 # ---------------------------------------------------------------------------------------------
 # builds
 
+def gen_glue():
+    subprocess.run([sys.executable, os.path.join(VERIF, "bin", "gen_glue")], capture_output=True)
+
+
 def write_cargo_toml():
     """harness/Cargo.toml is generated from Cargo.toml.in with the resolved repository path."""
     tmpl = open(os.path.join(HARNESS, "Cargo.toml.in")).read().replace("@REPO@", REPO)
@@ -77,6 +81,7 @@ def write_cargo_toml():
 def build_harness(bins=("pv",)):
     """Rebuilds the harness (and with it the parol crates) from /repo's current working tree,
     hooks on (--cfg parol_verif via harness/.cargo/config.toml). Returns (ok, log)."""
+    gen_glue()
     write_cargo_toml()
     lock = os.path.join(HARNESS, "Cargo.lock")
     if not os.path.exists(lock):
